@@ -86,6 +86,7 @@ type outcome struct {
 	Left     uint64   `json:"left"`
 	Events   int      `json:"events"`
 	Err      string   `json:"err,omitempty"`
+	Flushed  []kvPair `json:"flushed,omitempty"` // what reached the layer BELOW the transaction cache during the execution
 }
 
 type txObs struct {
@@ -136,6 +137,7 @@ func probe(w *world, block *types.Block, tx *types.Transaction, ov *overlaydb.Ov
 			o.Err = o.Err[:120]
 		}
 	}
+	o.Flushed = writeSet(pov.GetWriteSet()) // must be empty: the handler alone commits the cache
 	pc.Commit()
 	o.Cache = writeSet(pov.GetWriteSet())
 	return o
